@@ -187,6 +187,8 @@ def mirror_edits(case, lst):
                 m["toks"] = lst.patch_tokens(
                     p["lines"], idx, lst.block_fn.get(e["b"])
                     if blk["code"] else None)
+        for t in m.get("toks", []):
+            t.site = (e["b"], e["i"], e["i"] + e.get("n", 0))
         per_block.setdefault(e["b"], []).append(m)
     for b, mods in per_block.items():
         lst.apply_block_edits(b, mods)
